@@ -191,3 +191,61 @@ def run_chunks(ck, name, defs, runs, imports, chunk=60, workers=4):
     with ThreadPoolExecutor(max_workers=workers) as ex:
         res = list(ex.map(one, range(len(parts))))
     return [c for r in res for c in r]
+
+
+# ---- crystals with a 3-, 4- or 6-fold axis and NO mirror containing it / two-fold perpendicular to it ------------
+def _orbit(latt, rots, u0, tol=1e-6):
+    """positions (cell coordinates) of the orbit of u0 under Cartesian point operations rots (about the origin)"""
+    inv = np.linalg.inv(latt)
+    out = []
+    for Rm in rots:
+        u = np.dot(inv, np.dot(Rm, np.dot(latt, u0)))
+        u = u - np.floor(u + 1e-9)
+        if not any(np.abs((u - v) - np.round(u - v)).max() < tol for v in out): out.append(u)
+    return out
+
+
+def _cyclic(n, dim, extra=()):
+    """rotations by 2 pi k / n about z (3-D) or in the plane (2-D), times the extra commuting operations"""
+    rots = []
+    for k in range(n):
+        c, s_ = np.cos(2 * np.pi * k / n), np.sin(2 * np.pi * k / n)
+        Rm = np.eye(dim); Rm[0, 0] = c; Rm[0, 1] = -s_; Rm[1, 0] = s_; Rm[1, 1] = c
+        rots.append(Rm)
+        for E in extra: rots.append(np.dot(np.asarray(E, dtype=float), Rm))
+    return rots
+
+
+def chiral_crystal(name):
+    """-> (crystal, chem, expected order of the point group, cutoff with in-plane 1st and 2nd neighbour jumps).
+    Mobile species: one atom at the origin (chem 0); a spectator species on a general-position orbit removes the mirrors."""
+    from onsager import crystal
+    s3 = np.sqrt(3.)
+    sq2, hex2 = np.eye(2), np.array([[1., -.5], [0., s3 / 2]])
+    tet = np.diag([1., 1., 1.2]); hex3 = np.array([[1., -.5, 0.], [0., s3 / 2, 0.], [0., 0., 1.25]])
+    inv3, mz = -np.eye(3), np.diag([1., 1., -1.])
+    if name == "p4":      latt, rots, u0, order = sq2, _cyclic(4, 2), np.array([.23, .11]), 4
+    elif name == "p3":    latt, rots, u0, order = hex2, _cyclic(3, 2), np.array([.31, .12]), 3
+    elif name == "p6":    latt, rots, u0, order = hex2, _cyclic(6, 2), np.array([.31, .12]), 6
+    elif name == "P4/m":  latt, rots, u0, order = tet, _cyclic(4, 3), np.array([.23, .11, 0.]), 8
+    elif name == "P4":    latt, rots, u0, order = tet, _cyclic(4, 3), np.array([.23, .11, .2]), 4
+    elif name == "P3":    latt, rots, u0, order = hex3, _cyclic(3, 3), np.array([.31, .12, .2]), 3
+    elif name == "P-3":   latt, rots, u0, order = hex3, _cyclic(3, 3, (inv3,)), np.array([.31, .12, .2]), 6
+    elif name == "P6/m":  latt, rots, u0, order = hex3, _cyclic(6, 3), np.array([.31, .12, 0.]), 12
+    elif name == "m-3":
+        latt, order = np.eye(3), 24
+        cyc = [np.eye(3), np.array([[0., 0, 1], [1, 0, 0], [0, 1, 0]]), np.array([[0., 1, 0], [0, 0, 1], [1, 0, 0]])]
+        rots = [np.dot(np.diag(sg), P) for P in cyc for sg in itertools.product((1., -1.), repeat=3)]
+        u0 = np.array([.21, .34, 0.])
+    else:
+        raise KeyError(name)
+    dim = latt.shape[0]
+    crys = crystal.Crystal(latt, [[np.zeros(dim)], _orbit(latt, rots, u0)])
+    # in-plane first and second neighbours of the mobile lattice (anything shorter comes along)
+    d = sorted(set(round(float(np.linalg.norm(np.dot(latt[:2, :2], np.array(R)))), 6)
+                   for R in itertools.product(range(-2, 3), repeat=2) if any(R)))
+    return crys, 0, order, d[1] + 1e-4
+
+
+CHIRAL2 = ["p4", "p3", "p6"]
+CHIRAL3 = ["P4/m", "P4", "P3", "P-3", "P6/m", "m-3"]
